@@ -17,7 +17,7 @@ EXPLANATION = (
     "reader's arithmetic is value-level and not decided.")
 # every anchor of these rules lives in the h3 crate: thorough tier repeats them on the feature-less build
 EXTRA_CONFIGS = ["h3-plain"]
-RULES = "C04-a control dispatch tables (A3); C04-b stream classification (A3); C04-c frame acted on exactly once (A8); C04-d who may claim slots (A10); C04-e memo cleared (A2); C04-f varint decoded only when complete (A5)"
+RULES = "C04-a control dispatch tables (A3); C04-b stream classification (A3); C04-c frame acted on exactly once (A8); C04-d who may claim slots (A10); C04-e memo cleared (A2); C04-f varint decoded only when complete (A5); shared through a proxy: C16-a under C04-f"
 
 CI = "h3::connection::ConnectionInner::"
 PN = "h3::frame::FrameStream::poll_next"
@@ -361,3 +361,7 @@ def run(ctx):
             ctx.check(bool(hit) and not bad, "C04-b", nv.key, "%s is not a connection-level error" % lab.split(":")[-1],
                       "%s on an untyped stream is turned into %s" % (lab, [p.ret_shape() for p in bad]), "")
     ctx.assume("FrameStream::poll_next segments the control stream as decided under C02")
+    # stream types, frame types, lengths and identifiers on the control and unidirectional streams are varints: the varint codec tables (C16-a) run under this property too
+    if not getattr(ctx, "nested", False):
+        from rules import C16 as _c16p, shared as _shp
+        _c16p.run(_shp.Proxy(ctx, ("C16-a",), "C04-f"))
